@@ -21,12 +21,12 @@ package method
 //@ func isError
 //@   props C14
 //@   pure
-//@   requires obj != nil
+//@   requires@C13 obj != nil
 //@   ensures result == (dynIs[*types.Named](obj.Type()) && unboxed[*types.Named](obj.Type()).Obj().Name() == "error" && unboxed[*types.Named](obj.Type()).Obj().Pkg() == nil)
 
 //@ func Parse
 //@   props C14 C10 C06
-//@   requires obj != nil && opts != nil
+//@   requires@C13 obj != nil && opts != nil
 //@   assigns nothing
 //@   ensures err == nil ==> result != nil && isFresh(result)
 //@   ensures err != nil ==> result == nil
@@ -108,13 +108,13 @@ package method
 //@ func checkOverlap
 //@   props C06
 //@   pure
-//@   requires left != nil && right != nil
+//@   requires@C13 left != nil && right != nil
 //@   ensures (result != nil) == satisfiesContext(left.Context, right.Context)
 
 //@ func Index.Has
 //@   props C06
 //@   pure
-//@   requires l != nil
+//@   requires@C13 l != nil
 //@   ensures result == has(l.Exact, sig)
 
 // representation invariant: every registered entry has a definition and an item
@@ -127,21 +127,21 @@ package method
 //@ func Index.ByID
 //@   props C06
 //@   pure
-//@   requires l != nil
-//@   requires ValidID(l, id)
+//@   requires@C13 l != nil
+//@   requires@C13 ValidID(l, id)
 //@   ensures result == ite(id.update, l.Update[id.idx], l.Exact[id.sig][id.idx].Item)
 
 //@ func satisfiedError
 //@   props C06
 //@   pure
-//@   requires forall j int :: 0 <= j && j < len(hits) ==> hits[j].Def != nil
+//@   requires@C13 forall j int :: 0 <= j && j < len(hits) ==> hits[j].Def != nil
 //@   ensures result != nil
 
 // Get: nil/nil iff the signature is absent; otherwise the FIRST entry whose required context is available,
 // or an error when no entry is satisfiable
 //@ func Index.Get
 //@   props C06
-//@   requires IndexWF(l)
+//@   requires@C13 IndexWF(l)
 //@   assigns nothing
 //@   ensures !has(l.Exact, sig) ==> result == nil && err == nil
 //@   ensures has(l.Exact, sig) && err == nil ==> (exists j int :: 0 <= j && j < len(l.Exact[sig]) && result == l.Exact[sig][j].Item
@@ -156,7 +156,7 @@ package method
 // direction; every other signature, every earlier entry and every earlier id stay intact
 //@ func Index.Register
 //@   props C06
-//@   requires IndexWF(l) && def != nil && t != nil
+//@   requires@C13 IndexWF(l) && def != nil && t != nil
 //@   assigns map(l.Exact)
 //@   ensures IndexWF(l)
 //@   ensures (err == nil) == old(forall j int :: 0 <= j && j < len(l.Exact[def.Signature]) ==>
@@ -171,7 +171,7 @@ package method
 
 //@ func Index.RegisterUpdate
 //@   props C06
-//@   requires l != nil
+//@   requires@C13 l != nil
 //@   assigns l.Update
 //@   ensures err == nil && len(l.Update) == len(old(l.Update)) + 1 && l.Update[len(old(l.Update))] == t
 //@   ensures forall j int :: 0 <= j && j < len(old(l.Update)) ==> l.Update[j] == old(l.Update)[j]
